@@ -70,6 +70,14 @@ Definition spec_target (bits : Z) : Z :=
   let word := bits mod 8388608 in
   if size <=? 3 then word / 256 ^ (3 - size) else word * 256 ^ (size - 3).
 
+(* pfNegative of SetCompact: the sign bit 0x00800000 on a non-zero mantissa word; the number the compact form
+   encodes is then minus the magnitude (Bitcoin Core refuses such a header) *)
+Definition spec_target_negative (bits : Z) : bool :=
+  negb (bits mod 8388608 =? 0) && (8388608 <=? bits mod 16777216).
+
+Definition spec_target_signed (bits : Z) : Z :=
+  if spec_target_negative bits then - spec_target bits else spec_target bits.
+
 Definition wf_header (h : header) : Prop :=
   0 <= h_version h < 2 ^ 32 /\ length (h_prev h) = 32%nat /\ length (h_merkle h) = 32%nat /\
   0 <= h_time h < 2 ^ 32 /\ 0 <= h_bits h < 2 ^ 32 /\ 0 <= h_nonce h < 2 ^ 32.
@@ -255,3 +263,225 @@ Definition lib_block_dict (l : bytes) : option (list (bytes * bytes)) :=
       | Some (cnt, txdata) => if cnt =? 0 then Some [] else lib_dict_txs (length txdata) txdata
       end
   end.
+
+(* ====================================================================================================
+   Sessions: reader calls on ONE Block object.
+   The object keeps the stream it was parsed from (Block.txs_data, a BytesIO with a position) and the list
+   Block.transactions.  State of the model: the header fields / transactions / tx_count (an lblock) and the
+   bytes from the current position to the end of the stream.
+   A read of a transaction at the end of the stream (only reachable after parse_transaction_dict has moved the
+   position without adding to Block.transactions) is outside the model: None. *)
+
+Record bstate := mk_bstate { bs_blk : lblock; bs_rest : bytes }.
+
+Inductive bop :=
+| BTxs (k : nat)        (* parse_transactions(limit=k) *)
+| BTx                   (* parse_transaction() *)
+| BDictAll              (* parse_transactions_dict() *)
+| BDictOne              (* parse_transaction_dict() *)
+| BSer.                 (* serialize() *)
+
+Inductive bout :=
+| OOk
+| OTx (id : option bytes)                  (* the txid of the returned object; None = False *)
+| ODicts (l : list (bytes * bytes))        (* (txid, rawtx) of every dictionary returned *)
+| ODict (d : option (bytes * bytes))       (* None = False *)
+| OSer (r : option bytes).                 (* None = ValueError *)
+
+Definition set_txs (b : lblock) (txs : list ltx) : lblock :=
+  mk_lblock (lb_hash b) (lb_version b) (lb_prev b) (lb_merkle b) (lb_time b) (lb_bits b) (lb_nonce b) txs
+            (lb_tx_count b).
+
+(* how many transactions the object still misses: the guard `len(self.transactions) < self.tx_count` *)
+Definition b_todo (b : lblock) : nat := Z.to_nat (lb_tx_count b - Z.of_nat (length (lb_txs b))).
+
+Definition lib_bstep (s : bstate) (o : bop) : option (bstate * bout) :=
+  let b := bs_blk s in
+  match o with
+  | BTxs k =>
+      let m := if (k =? 0)%nat then b_todo b else Nat.min k (b_todo b) in
+      match parse_n lib_parse_stream m (bs_rest s) with
+      | Some (ts, r) => Some (mk_bstate (set_txs b (lb_txs b ++ ts)) r, OOk)
+      | None => None
+      end
+  | BTx =>
+      match b_todo b with
+      | O => Some (s, OTx None)
+      | S _ =>
+          match lib_parse_stream (bs_rest s) with
+          | Some (t, r) => Some (mk_bstate (set_txs b (lb_txs b ++ [t])) r, OTx (Some (l_txid t)))
+          | None => None
+          end
+      end
+  | BDictAll =>
+      (* the position is saved (deepcopy of the stream) and restored: the state does not change *)
+      match b_todo b with
+      | O => Some (s, ODicts [])
+      | S _ =>
+          match lib_dict_txs (length (bs_rest s)) (bs_rest s) with
+          | Some l => Some (s, ODicts l)
+          | None => None
+          end
+      end
+  | BDictOne =>
+      match b_todo b with
+      | O => Some (s, ODict None)
+      | S _ =>
+          match bs_rest s with
+          | [] => Some (s, ODict None)          (* the version read returns b'': False *)
+          | _ =>
+              match lib_dict_tx (bs_rest s) with
+              | Some (id, raw, r) => Some (mk_bstate b r, ODict (Some (id, raw)))
+              | None => None
+              end
+          end
+      end
+  | BSer => Some (s, OSer (lib_block_serialize b))
+  end.
+
+(* the answers of a sequence of calls, with the state after each; the run stops at the first call outside the model *)
+Fixpoint lib_brun (s : bstate) (ops : list bop) : list (option (bstate * bout)) :=
+  match ops with
+  | [] => []
+  | o :: r =>
+      match lib_bstep s o with
+      | Some (s', out) => Some (s', out) :: lib_brun s' r
+      | None => [None]
+      end
+  end.
+
+(* the reading loop of parse_bytesio(parse_transactions=True, limit): until the data is exhausted or `limit`
+   transactions are held *)
+Fixpoint lib_open_txs (fuel limit have : nat) (l : bytes) : option (list ltx * bytes) :=
+  match l with
+  | [] => Some ([], [])
+  | _ =>
+      if negb (limit =? 0)%nat && (limit <=? have)%nat then Some ([], l)
+      else
+        match fuel with
+        | O => None
+        | S f =>
+            match lib_parse_stream l with
+            | Some (t, r) =>
+                match lib_open_txs f limit (S have) r with
+                | Some (ts, r') => Some (t :: ts, r')
+                | None => None
+                end
+            | None => None
+            end
+        end
+  end.
+
+Definition lblock_of (hdr : bytes) (h : header) (txs : list ltx) (cnt : Z) : lblock :=
+  mk_lblock (rev (sha256d hdr))
+            (lib_to_bytes (be_bytes 4 (h_version h)))
+            (lib_to_bytes (rev (h_prev h)))
+            (lib_to_bytes (rev (h_merkle h)))
+            (h_time h)
+            (lib_to_bytes (be_bytes 4 (h_bits h)))
+            (lib_to_bytes (be_bytes 4 (h_nonce h)))
+            txs cnt.
+
+(* Block.parse / parse_bytes / parse_bytesio (raw, parse_transactions=ptx, limit) *)
+Definition lib_block_open (l : bytes) (ptx : bool) (limit : nat) : option bstate :=
+  match read_n 80 l with
+  | None => None
+  | Some (hdr, body) =>
+      match parse_header hdr with
+      | None => None
+      | Some (h, _) =>
+          match lib_read_cs body with
+          | None => None
+          | Some (cnt, txdata) =>
+              match (if ptx then lib_open_txs (length txdata) limit 0 txdata else Some ([], txdata)) with
+              | None => None
+              | Some (txs, rest) =>
+                  if ptx && (limit =? 0)%nat && negb (cnt =? Z.of_nat (length txs)) then None
+                  else Some (mk_bstate (lblock_of hdr h txs cnt) rest)
+              end
+          end
+      end
+  end.
+
+Definition lib_bsession (l : bytes) (ptx : bool) (limit : nat) (ops : list bop)
+  : option (bstate * list (option (bstate * bout))) :=
+  match lib_block_open l ptx limit with
+  | Some s => Some (s, lib_brun s ops)
+  | None => None
+  end.
+
+(* ---- the same sessions on the protocol-level block: a cursor into the list of transactions ---- *)
+
+Record sstate := mk_sstate {
+  ss_pos : nat;            (* transactions consumed from the stream *)
+  ss_objs : list tx        (* transactions delivered as objects (Block.transactions) *)
+}.
+
+Definition s_todo (b : block) (s : sstate) : nat := length (b_txs b) - length (ss_objs s).
+
+Definition dict_of (t : tx) : bytes * bytes := (spec_txid t, spec_ser t).
+
+Definition spec_bstep (b : block) (s : sstate) (o : bop) : option (sstate * bout) :=
+  let n := length (b_txs b) in
+  match o with
+  | BTxs k =>
+      let m := if (k =? 0)%nat then s_todo b s else Nat.min k (s_todo b s) in
+      if (ss_pos s + m <=? n)%nat
+      then Some (mk_sstate (ss_pos s + m) (ss_objs s ++ firstn m (skipn (ss_pos s) (b_txs b))), OOk)
+      else None
+  | BTx =>
+      match s_todo b s with
+      | O => Some (s, OTx None)
+      | S _ =>
+          match nth_error (b_txs b) (ss_pos s) with
+          | Some t => Some (mk_sstate (S (ss_pos s)) (ss_objs s ++ [t]), OTx (Some (spec_txid t)))
+          | None => None
+          end
+      end
+  | BDictAll =>
+      match s_todo b s with
+      | O => Some (s, ODicts [])
+      | S _ => Some (s, ODicts (map dict_of (skipn (ss_pos s) (b_txs b))))
+      end
+  | BDictOne =>
+      match s_todo b s with
+      | O => Some (s, ODict None)
+      | S _ =>
+          match nth_error (b_txs b) (ss_pos s) with
+          | Some t => Some (mk_sstate (S (ss_pos s)) (ss_objs s), ODict (Some (dict_of t)))
+          | None => Some (s, ODict None)
+          end
+      end
+  | BSer =>
+      Some (s, OSer (if (length (ss_objs s) =? n)%nat && negb (n =? 0)%nat
+                     then Some (ser_header (b_hdr b) ++ ser_list spec_ser (ss_objs s)) else None))
+  end.
+
+Fixpoint spec_brun (b : block) (s : sstate) (ops : list bop) : list (option (sstate * bout)) :=
+  match ops with
+  | [] => []
+  | o :: r =>
+      match spec_bstep b s o with
+      | Some (s', out) => Some (s', out) :: spec_brun b s' r
+      | None => [None]
+      end
+  end.
+
+Definition spec_open (b : block) (ptx : bool) (limit : nat) : sstate :=
+  if ptx then
+    let m := if (limit =? 0)%nat then length (b_txs b) else Nat.min limit (length (b_txs b)) in
+    mk_sstate m (firstn m (b_txs b))
+  else mk_sstate 0 [].
+
+(* header fields the library would alter (known finding ascii_hex_bytes) *)
+Definition hdr_quirk_free (h : header) : Prop :=
+  hexlike (be_bytes 4 (h_version h)) = false /\ hexlike (rev (h_prev h)) = false /\
+  hexlike (rev (h_merkle h)) = false /\ hexlike (be_bytes 4 (h_bits h)) = false /\
+  hexlike (be_bytes 4 (h_nonce h)) = false.
+
+Definition block_ok (b : block) : Prop :=
+  wf_header (b_hdr b) /\ hdr_quirk_free (b_hdr b) /\ len_ok (b_txs b) /\
+  Forall wf_tx (b_txs b) /\ Forall quirk_free (b_txs b).
+
+Definition dict_one_free (ops : list bop) : Prop :=
+  Forall (fun o => match o with BDictOne => False | _ => True end) ops.
